@@ -1,7 +1,7 @@
 """Harness registry: which harness families serve which property."""
 import importlib
 
-_NAMES = ["filt", "opt", "ctl", "pb", "tr", "sub", "mod"]
+_NAMES = ["filt", "opt", "ctl", "pb", "tr", "sub", "mod", "eqv", "glue"]
 HARNESSES = {}
 for _n in _NAMES:
     _m = importlib.import_module(f"harness.{_n}")
